@@ -249,10 +249,11 @@ FAIL = None  # {"at": name, "exc": exception object}
 
 
 def rec(name):
-    LOG.append(name)
     f = FAIL
     if f is not None and f["at"] == name:
+        LOG.append(name + "!fail")
         raise f["exc"]
+    LOG.append(name)
     return name
 '''
 
